@@ -1243,7 +1243,10 @@ class HistFam(Family):
 PROP = Property(
     id="C14",
     title="Derived attributes compute their defining expression and go with their inputs",
-    theorems=[],
+    theorems=["C14.binary_compute_elementwise", "C14.expr_eval", "C14.link_compute_elementwise",
+              "C14.remove_closure", "C14.depClosure_iff_reach", "C14.remove_absent", "C14.remove_spec",
+              "C14.update_id_preserves_order", "C14.update_id_preserves_values",
+              "C14.update_id_breaks_dependents"],
     families=[GramFam(), Bcl(), ExprFam(), ArithFam(), ULink(), ParsedFam(), HistFam()],
     trusted_base=[
         "numpy ufuncs are pure elementwise functions of (dtype, bit pattern) independent of array layout (`**` is only generated on operands whose result is exact, because numpy's SIMD and scalar pow differ in the last bit otherwise); numpy basic indexing, broadcast_to/broadcast_arrays striding (L0 model in Model/Derived.lean, the zero-stride pattern of results is compared in the bcl family)",
